@@ -650,7 +650,7 @@ func c20Counter(s *verifh.Session) (map[string]int, func(string)) {
 
 func TestVerif_C20_handle(t *testing.T) {
 	s := verifh.New(t, "C20", "handle",
-		"real client (HTTP/1.1 loopback) with SetDigestAuth / SetCommonDigestAuth against an origin scripted per case: first response 401 with a grammatical challenge (65%), 401 with no / foreign / two / damaged / junk challenge, other statuses with or without a challenge, dropped connection; methods x URIs with queries x body kinds (none, bytes, 70 KB, string, json, form, ordered form, multipart, GetBody func, io.Reader, client-level form); hashFuncs = tagged identity hash and injected entropy, so the model predicts untouched / error kind / the exact Authorization value and body of the second request; oracle: non-401 untouched, at most one resend, same method+target+body, origin's RFC 7616 verifier accepts; non-trivial = resent or named error")
+		"real client (HTTP/1.1 loopback) with SetDigestAuth / SetCommonDigestAuth against an origin scripted per case: first response 401 with a grammatical RFC 7235 challenge list in 1-3 WWW-Authenticate lines (65%; several challenges, several Digest challenges, other schemes, token68), 401 with no / foreign / two / damaged / junk challenge, other statuses with or without a challenge, dropped connection; methods x URIs with queries x body kinds (none, bytes, 70 KB, string, json, form, ordered form, multipart, GetBody func, io.Reader, client-level form) x SetOutput in 1/6 x user names with control bytes in 1/30; hashFuncs = tagged identity hash and injected entropy, so the model predicts untouched / error kind / the exact Authorization value and body of the second request; oracle: non-401 untouched, at most one resend, same method+target+body, origin's RFC 7616 verifier accepts; non-trivial = resent or named error")
 	restore, _ := c20InstallIdentity()
 	defer restore()
 	o := c20NewOrigin(false)
